@@ -49,9 +49,13 @@ def contain(v, ct):
     """the argument value v (int or tuple of ints) in the container form ct of the call record:
     py = int / tuple, list, range (consecutive values only), nd64 / nd32 = NumPy int64 / int32 scalar or array"""
     if isinstance(v, tuple):
+        if v == (NONE,):                 # the specification's EmptyT: the empty tuple
+            v = ()
+            if ct == "range":
+                return range(0)
         if ct == "list":
             return list(v)
-        if ct == "range" and all(b == a + 1 for a, b in zip(v, v[1:])):
+        if ct == "range" and v and all(b == a + 1 for a, b in zip(v, v[1:])):
             return range(v[0], v[-1] + 1)
         if ct in ("nd64", "nd32"):
             return np.array(v, dtype=np.int64 if ct == "nd64" else np.int32)
@@ -83,6 +87,8 @@ def kwargs_of(c, norm=None):
 def transformed_axes(c, ndim):
     if c["name"] in NAMES1:
         return {(c["axis"] if c["axis"] != NONE else -1) % ndim}
+    if c["axes"] == [NONE] or c["s"] == [NONE]:
+        return set()
     if c["axes"]:
         return {a % ndim for a in c["axes"]}
     if c["name"].endswith("2"):
@@ -99,6 +105,43 @@ def make_input(c, x, dtype):
     with np.errstate(all="ignore"):
         b = (a if dt.kind == "c" else a.real.astype(np.int64) if dt.kind in "iub" else a.real).astype(dt)
     return b, bool(np.array_equal(b.astype(np.clongdouble), a.astype(np.clongdouble)))
+
+
+class _Sub(np.ndarray):
+    """an ndarray subclass"""
+
+
+class _ArrayLike:
+    """an object whose __array__ hands out its own buffer"""
+
+    def __init__(self, a):
+        self._a = a
+
+    def __array__(self, dtype=None, copy=None):
+        return self._a if dtype is None else self._a.astype(dtype)
+
+
+def hold(a, ck):
+    """the array a held by an input container of kind ck -> (object to pass, the buffer that must stay as it is)"""
+    if ck == "subclass":
+        b = a.copy()
+        return b.view(_Sub), b
+    if ck == "memmap":
+        import tempfile
+        f = tempfile.NamedTemporaryFile(prefix="c20-", suffix=".dat", dir=SCR)
+        mm = np.memmap(f, dtype=a.dtype, mode="w+", shape=a.shape)
+        mm[...] = a
+        mm._c20_file = f
+        return mm, mm
+    if ck == "readonly":
+        b = a.copy()
+        b.setflags(write=False)
+        return b, b
+    if ck == "arraylike":
+        b = a.copy()
+        return _ArrayLike(b), b
+    b = a.copy()
+    return b, b
 
 
 def rel_err(got, ref):
@@ -147,10 +190,26 @@ def run_fft_case(c, x, dtype, expected=None, norm=None, dask=True, form=0):
         single = ref.dtype in (np.float32, np.complex64)      # precision the reference works in
         tol_spec = 1e-5 if single else 1e-12
         tol_same = 1e-6 if single else 1e-14
+        ck = c.get("ck", "ndarray")
+        xin, buf = hold(a, ck)
+        before = np.array(buf, copy=True).tobytes()
         try:
-            got = getattr(pb.fft, name)(a.copy(), *args, **kw2)
+            got = getattr(pb.fft, name)(xin, *args, **kw2)
         except Exception as e:  # noqa
             return [("numpy:raised", "%s raised %r, the reference returns %s%r" % (what, e, ref.dtype, ref.shape))], False
+        if np.asarray(buf).tobytes() != before:
+            bad.append(("numpy:input-modified:" + ck, "%s overwrote its input (held by: %s)" % (what, ck)))
+        else:
+            try:
+                again = getattr(pb.fft, name)(xin, *args, **kw2)
+                if not np.array_equal(np.asarray(again), np.asarray(got), equal_nan=True):
+                    bad.append(("numpy:second-call-differs:" + ck, "%s: a second identical call returns something else (input held by: %s)" % (what, ck)))
+            except Exception as e:  # noqa
+                bad.append(("numpy:second-call-raised:" + ck, "%s: a second identical call raised %r" % (what, e)))
+        if ck != "ndarray":
+            what += " [input held by: %s]" % ck
+            dask = False
+            got = np.asarray(got)
         if type(got) is not np.ndarray:
             bad.append(("numpy:type", "%s returned %s" % (what, type(got).__name__)))
         if got.shape != ref.shape:
@@ -308,12 +367,21 @@ def sig_kw(i):
             dict(sample_rate=4 * u.Hz, center_freq=400 * u.MHz, start_time=Time(50000.25, format="mjd"))][i % 4]
 
 
-def build_bb(data, nch, align, dual, dtype, dask, kwi):
-    """data (n, nch) complex -> BasebandSignal or DualPolarizationSignal (second hand = 1j * first)"""
+def weights(xs):
+    """one distinct complex weight per trailing sample index (shape xs); (2,) gives (1, 1j)"""
+    k = np.arange(int(np.prod(xs, dtype=int)))
+    return ((1 + k // 2) * 1j ** k).reshape(tuple(xs))
+
+
+def build_bb(data, nch, align, dual, dtype, dask, kwi, xs=None):
+    """data (n, nch) complex -> baseband signal of shape (n, nch) + xs whose trailing index e holds data * weights(xs)[e];
+    xs defaults to (2,) for dual.  DualPolarizationSignal if dual and xs[0] == 2, else BasebandSignal."""
     from common import pb, da
+    xs = tuple(xs) if xs else ((2,) if dual else ())
+    dual = bool(dual and xs and xs[0] == 2)
     d = np.asarray(data, dtype=complex)
-    if dual:
-        d = np.stack([d, 1j * d], axis=2)
+    if xs:
+        d = d.reshape(d.shape + (1,) * len(xs)) * weights(xs)
     d = d.astype(dtype)
     if dask:
         d = da.from_array(d.copy(), chunks=(d.shape[0],) + (1,) * (d.ndim - 1))
@@ -374,7 +442,7 @@ def stft_roundtrip(z, p, orig, single):
 
 
 def replay_stft_case(rec, dual, dtype, dask, kwi):
-    """one Gen_Stft case on the real code -> [(key, desc)]"""
+    """one Gen_Stft case (incl. its trailing sample shape xs) on the real code -> [(key, desc)]"""
     import common
     from fractions import Fraction
     c = rec["c"]
@@ -384,25 +452,25 @@ def replay_stft_case(rec, dual, dtype, dask, kwi):
     else:
         data = tone_data(n, nch, c["c0"], c["k"], p)
     single = dtype == "complex64"
-    z = build_bb(data, nch, c["align"], dual, dtype, dask, kwi)
+    xs = tuple(rec.get("xs") or ()) or ((2,) if dual else ())
+    z = build_bb(data, nch, c["align"], dual, dtype, dask, kwi, xs)
     orig = np.array(common.materialise(z), copy=True)
-    where = "%s %s n=%d nchan=%d %s nperseg=%d %s%s [%s]" % (type(z).__name__, dtype, n, nch, c["align"], p, c["mode"],
+    where = "%s %s n=%d nchan=%d sample shape %r %s nperseg=%d %s%s [%s]" % (type(z).__name__, dtype, n, nch, (nch,) + xs, c["align"], p, c["mode"],
                                                               (" c0=%d k=%d" % (c["c0"], c["k"])) if c["mode"] == "tone" else "",
                                                               "dask" if dask else "numpy")
     y, w, bad = stft_roundtrip(z, p, orig, single)
     if y is None:
         return [(k, d + " | " + where) for k, d in bad]
     st = rec["st"]
-    if len(y) != st["n"] or y.nchan != st["nch"]:
-        bad.append(("stft:shape", "stft has %d samples x %d channels, specification %d x %d" % (len(y), y.nchan, st["n"], st["nch"])))
+    if tuple(y.shape) != (st["n"], st["nch"]) + xs:
+        bad.append(("stft:shape", "stft has shape %r, specification %r" % (tuple(y.shape), (st["n"], st["nch"]) + xs)))
     else:
         exp = np.array([[complex(float(exact.unfix(v["re"])), float(exact.unfix(v["im"]))) for v in row] for row in st["d"]]).reshape(st["n"], st["nch"])
         got = common.materialise(y)
         tol = (1e-6 if single else 1e-12) * max(1.0, float(np.max(np.abs(orig))))
-        g0 = got[:, :, 0] if dual else got
-        err = float(np.max(np.abs(g0 - exp))) if exp.size else 0.0
-        if dual and exp.size:
-            err = max(err, float(np.max(np.abs(got[:, :, 1] - 1j * exp))))
+        g0 = got[(slice(None), slice(None)) + (0,) * len(xs)]
+        full = exp.reshape(exp.shape + (1,) * len(xs)) * weights(xs) if xs else exp
+        err = float(np.max(np.abs(got - full))) if exp.size and got.shape == full.shape else (0.0 if not exp.size else float("inf"))
         if err > tol:
             bad.append(("stft:values", "stft differs from the specification by %.3g (tolerance %.3g)" % (err, tol)))
         cf, cbw = common.hz(z.center_freq), common.hz(z.chan_bw)
@@ -431,12 +499,15 @@ def replay_stft(chk, recs, rnd):
     n = 0
     modes = {}
     for i, rec in enumerate(sorted(recs, key=lambda r: str(r["c"]))):
-        combos = [(False, "complex128", False), (True, "complex64", False), (i % 2 == 0, "complex128", True)]
+        if rec.get("xs"):
+            combos = [(True, "complex128", False), (False, "complex64", i % 2 == 0)]
+        else:
+            combos = [(False, "complex128", False), (True, "complex64", False), (i % 2 == 0, "complex128", True)]
         if thorough:
             combos += [(True, "complex128", False), (False, "complex64", True)]
         for j, (dual, dt, dk) in enumerate(combos):
             for key, desc in replay_stft_case(rec, dual, dt, dk, i + j):
-                chk.violation(key, desc, {"kind": "stft", "rec": {"c": rec["c"], "x": rec["x"], "st": rec["st"]}, "dual": dual,
+                chk.violation(key, desc, {"kind": "stft", "rec": {"c": rec["c"], "xs": rec.get("xs"), "x": rec["x"], "st": rec["st"]}, "dual": dual,
                                           "dtype": dt, "dask": dk, "kwi": i + j})
             n += 1
         modes[rec["c"]["mode"]] = modes.get(rec["c"]["mode"], 0) + 1
